@@ -17,6 +17,7 @@
   correspondence check's malformed stream, not proved.
 -/
 import Z80.Props.C06
+import Z80.Spec.KoronIM0
 import Z80.Proofs.Families.Invalid
 
 namespace Z80.Props.C12
@@ -58,6 +59,28 @@ theorem C12_step (s : St) (hm : s.Memory = .user) (hreq : ∀ i, s.Interrupt = s
     rw [C06.C06_step s i hi hm (hreq i hi)]
     obtain ⟨t, ht⟩ := intStep_total i s (hreq i hi)
     exact ⟨t, by simp [Spec.step, hi, ht]⟩
+
+
+/-- the recorded description of mode 0 never panics (it runs one reference instruction on the overlaid memory) -/
+theorem stepKF_im0_total (s : St) (data : List U8) : ∃ t, koronIM0 Impl.koron data s = .ok () t := by
+  unfold koronIM0
+  obtain ⟨t, ht⟩ := executeOne_total { s with mem := overlayMem s.PC data s.mem, log := [] }
+  simp only [ht]
+  exact ⟨_, rfl⟩
+
+/-- mode 0 with a supplied RST p or CALL nn (the forms devices use): Step returns normally for EVERY state — via the
+    proved equality with the recorded description (C06_im0_rst / C06_im0_call) -/
+theorem C12_step_im0 (s : St) (i : Interrupt) (hi : s.Interrupt = some i) (hm : s.Memory = .user) (hn : i.Type_ ≠ 0)
+    (hf : s.IFF1 = true) (him : s.IM = 0)
+    (hd : (∃ b, (b = 0xc7#8 ∨ b = 0xcf#8 ∨ b = 0xd7#8 ∨ b = 0xdf#8 ∨ b = 0xe7#8 ∨ b = 0xef#8 ∨ b = 0xf7#8 ∨ b = 0xff#8) ∧ i.Data = [b]) ∨
+          (∃ lo hi', i.Data = [0xcd#8, lo, hi'])) :
+    ∃ t, Gen.Step s = .ok () t := by
+  have hk : Spec.stepKF Impl.koron s = koronIM0 Impl.koron i.Data s := by
+    have hne : i.Data ≠ [] := by rcases hd with ⟨b, _, h⟩ | ⟨lo, hi', h⟩ <;> simp [h]
+    simp [Spec.stepKF, hi, isNMI, hn, hf, him, hne]
+  rcases hd with ⟨b, hb, h⟩ | ⟨lo, hi', h⟩
+  · rw [C06.C06_im0_rst s i hi hm hn hf him b hb h, hk]; exact stepKF_im0_total s i.Data
+  · rw [C06.C06_im0_call s i hi hm hn hf him lo hi' h, hk]; exact stepKF_im0_total s i.Data
 
 /-- with no request pending the Memory value is kept, so totality holds for every following Step as well -/
 theorem C12_steps_noint (s : St) (hm : s.Memory = .user) (hi : s.Interrupt = none) :
